@@ -76,9 +76,8 @@ func (t *TTYFrontend) Attach(r Region) {
 func (t *TTYFrontend) attachLocked(r Region) {
 	t.region = r
 	t.attached = true
-	if !t.showCur {
-		t.showCur = true
-	}
+	// showCur keeps following the terminal's VFShowCursor: an application that
+	// hid its cursor before the attach still has it hidden afterwards.
 }
 
 // Detach stops updating the attached region.
